@@ -20,7 +20,7 @@ ASSUMPTIONS = ['hardware and network layers are replaced by fakes (fake Crazyrad
                '"claims a URI" = connect() does not raise WrongUriType']
 REQUIRED = ['mon.parse_uri', 'mon.malformed', 'mon.settings_applied', 'mon.scan_results', 'mon.scheme_dispatch', 'mon.open_link_bad',
             'mon.serial_dongle_ids', 'mon.scans_of_address_zero', 'mon.scheme_dispatch_after_a_second_init_drivers_call',
-            'mon.malformed_uris_of_a_known_scheme_dispatched']
+            'mon.malformed_uris_of_a_known_scheme_dispatched', 'mon.connects_with_a_dongle_without_serial_number_plugged_in']
 DESC_TIMEOUT = 900
 RATES = {'250K': 0, '1M': 1, '2M': 2}
 _guard = {'installed': False, 'hits': []}
@@ -149,6 +149,12 @@ def run_connect(desc, ctx):
         devs = [radiosim.FakeUsbRadio(serial=serials[i] if i < 3 else 'X%09d' % i) for i in range(10)]
         peer = radiosim.Peer()
         devs[exp[0]].peers[(exp[1], exp[2], exp[3])] = peer
+        # one of the other dongles reports no serial number (old firmware), often one enumerated before the selected one
+        if rnd.random() < 0.6:
+            others = [j for j in range(10) if j != exp[0]]
+            j = min(others) if rnd.random() < 0.6 else rnd.choice(others)
+            devs[j].serial_number = rnd.choice((None, ''))
+            ctx.count('mon.connects_with_a_dongle_without_serial_number_plugged_in')
         ob = {'err': []}
         old_find = cr._find_devices
 
